@@ -10,6 +10,11 @@ from common import VERIF  # noqa: E402
 TECH = "contract harnesses on the real crate discharged by Kani/CBMC (full-domain symbolic, loop-free = complete; containers bounded and labelled) + Verus history lemmas over the same contract predicates + Verus on verbatim-extracted functions"
 
 CHECKS = {
+    "C13": {
+        "text": "LocalIdRegistry::{register_connection_id, set_active_connection_id_limit, connection_id_interest, on_retire_connection_id, on_packet_ack, on_packet_loss, on_handshake_confirmed} are under contract on the real registry built through the real ConnectionIdMapper (SmallVec, Memo caches and the crate's own check_consistency() run unchanged): consecutive sequence numbers, duplicate id rejected with the state unchanged, never more ids requested than min(peer limit, 3), RETIRE_CONNECTION_ID for a never-issued sequence number or for the packet's own destination id rejected, frame conditions and invariant preservation -- discharged by Kani/CBMC as bounded one-step obligations (K = 1 registered id, thorough tier). Verus proves for every history of register / retire / expire / ack / loss that sequence numbers are consecutive, ids and tokens pairwise distinct and the active count within the peer's limit (quick tier).",
+        "note": "Bounded (K = 1) and modular: the shared hash-map operations (LocalIdMap::try_insert/remove, InitialIdMap::remove) are replaced by contract stubs with a ghost log -- hashbrown/SipHash routing ('every datagram addressed to an unretired id reaches its connection') is TRUSTED, not proved. NOT discharged on the code (CBMC memory/time): LocalIdRegistry::on_timeout and on_transmit, all of PeerIdRegistry; the lemma steps for those operations show what the contract would give. The quick tier is the lemma layer only.",
+        "design": "5/C13",
+    },
     "C09": {
         "text": "Core kernels of RFC 9002 are under contract on the real code: loss::detect (sound up to the timer granularity: Lost => distance >= 3 or now + 1 ms > sent + threshold; now >= sent + threshold => Lost; distance >= 3 => Lost; the strict statement of the property is kept as an obligation and is a recorded known finding with its residual), Timestamp::has_elapsed, RttEstimator::{loss_time_threshold, update_rtt, weighted_average, pto_period, persistent_congestion_threshold} against exact integer formulas, Pto::{on_timeout, update, cancel, transmissions} with the frame condition that a PTO expiry touches no sent-packet state; discharged by Kani/CBMC (full domain where no Duration arithmetic is symbolic, otherwise bounded to RTT quantities < 4 s and labelled). Verus proves for every history of sent/acked/lost/discarded/PTO events that each packet is resolved exactly once, bytes_in_flight == sum of unresolved >= 0, and the PTO backoff doubles.",
         "note": "Timestamp + Duration inside loss::detect is replaced (kani::stub) by its contract, which is checked only on a table of concrete instants (symbolic Duration round trips are SAT-hard): assumed dependency contract, listed. recovery::Manager (the caller that walks the sent-packet map, picks the path's RTT estimator and feeds the congestion controller) is NOT under contract: changes confined to it are not detected. The sent-packet map is bounded (K <= 3, thorough tier; insert could not be executed by CBMC).",
